@@ -35,10 +35,15 @@ package lsputil
 //@   ensures [le_len] result <= len(s)
 //@   loop 1 invariant 0 <= iterpos && iterpos <= len(s) && bnd(s, iterpos) && count == u16(s, iterpos) && count >= 0 && count <= iterpos
 
+//@ specdef b2u(s string, i int, cur int, b int) int := ite(i < 0 || i >= len(s) || cur >= b, 0, u16w(rune(s, i)) + b2u(s, step(s, i), cur + runelen(rune(s, i)), b))
+
 //@ func ByteOffsetToUTF16
-//@   props C01 C06
+//@   props C01 C06 C08
+//@   ensures [fn] result == b2u(s, 0, 0, byteOffset)
 //@   ensures [nonneg] result >= 0
-//@   loop 1 invariant 0 <= iterpos && iterpos <= len(s) && bnd(s, iterpos) && utf16Count == u16(s, iterpos) && utf16Count >= 0
+//@   ensures [le_len] result <= len(s)
+//@   loop 1 invariant 0 <= iterpos && iterpos <= len(s) && bnd(s, iterpos) && utf16Count == u16(s, iterpos) && utf16Count >= 0 && utf16Count <= iterpos
+//@   loop 1 invariant utf16Count + b2u(s, iterpos, currentByte, byteOffset) == b2u(s, 0, 0, byteOffset)
 
 //@ pred MapInv(m) := m != nil && len(m.lines) == NL(m.content) && len(m.lineStarts) == len(m.lines) && (forall k int :: 0 <= k && k < len(m.lines) ==> m.lines[k] == substr(m.content, LS(m.content, k), LE(m.content, k)) && m.lineStarts[k] == LS(m.content, k))
 
